@@ -383,3 +383,274 @@ impl FlowAcct {
 pub fn _unused(_: (u8, u8)) {
     let _ = (flag::ACK, ty::DATA);
 }
+
+// ---------------------------------------------------------------------------------------------
+// C04: sender life-cycle automaton for one endpoint's output (RFC 9113 sections 5.1, 5.1.1, 6)
+
+#[derive(Clone, Copy, Debug, PartialEq, Eq)]
+enum SendState {
+    /// promised by our own PUSH_PROMISE, no HEADERS yet
+    Reserved,
+    /// HEADERS sent (for a server: at least one response head), send side open
+    Open,
+    /// we sent END_STREAM
+    Ended,
+    /// we sent RST_STREAM
+    Reset,
+}
+
+pub struct Lifecycle {
+    pub x: Side,
+    state: BTreeMap<u32, SendState>,
+    /// final (non-1xx) response head sent on this stream (server) / request head sent (client)
+    final_head_sent: BTreeMap<u32, bool>,
+    /// peer-initiated streams whose opening HEADERS the subject's transport has received
+    peer_opened: std::collections::BTreeSet<u32>,
+    /// streams promised to us by the peer (client side)
+    peer_promised: std::collections::BTreeSet<u32>,
+    max_own_id: u32,
+    pub violations: Vec<String>,
+    pub rst_count: BTreeMap<u32, u32>,
+    pub streams_opened: u64,
+    cursor: usize,
+}
+
+impl Lifecycle {
+    pub fn new(x: Side) -> Lifecycle {
+        Lifecycle {
+            x,
+            state: BTreeMap::new(),
+            final_head_sent: BTreeMap::new(),
+            peer_opened: Default::default(),
+            peer_promised: Default::default(),
+            max_own_id: 0,
+            violations: vec![],
+            rst_count: BTreeMap::new(),
+            streams_opened: 0,
+            cursor: 0,
+        }
+    }
+    fn own_parity(&self, sid: u32) -> bool {
+        match self.x {
+            Side::Client => sid % 2 == 1,
+            Side::Server => sid % 2 == 0,
+        }
+    }
+    fn v(&mut self, s: String) {
+        if self.violations.len() < 20 {
+            self.violations.push(s);
+        }
+    }
+    pub fn update(&mut self, mon: &WireMon) {
+        while self.cursor < mon.events.len() {
+            let ev = mon.events[self.cursor].clone();
+            self.cursor += 1;
+            match ev {
+                WireEv::Delivered(i) if mon.frames[i].sender != self.x => match &mon.frames[i].parsed {
+                    Ok(Parsed::Headers { sid, .. }) => {
+                        if !self.own_parity(*sid) {
+                            self.peer_opened.insert(*sid);
+                        }
+                    }
+                    Ok(Parsed::PushPromise { promised, .. }) => {
+                        self.peer_promised.insert(*promised);
+                    }
+                    _ => {}
+                },
+                WireEv::Sent(i) if mon.frames[i].sender == self.x => {
+                    let f = mon.frames[i].clone();
+                    self.on_sent(&f);
+                }
+                _ => {}
+            }
+        }
+    }
+    fn on_sent(&mut self, f: &FrameRec) {
+        let me = self.x.name();
+        let sid = f.raw.stream();
+        let tname = wf::type_name(f.raw.ty);
+        if f.raw.sid & 0x8000_0000 != 0 {
+            self.v(format!("{} sent {} with the reserved bit set", me, tname));
+        }
+        let parsed = match &f.parsed {
+            Ok(p) => p.clone(),
+            Err(d) => {
+                self.v(format!("{} sent a malformed {} frame on stream {}: {:?}", me, tname, sid, d));
+                return;
+            }
+        };
+        // connection-level vs stream-level placement (the frame-local parser already rejects most of these)
+        match f.raw.ty {
+            ty::SETTINGS | ty::PING | ty::GOAWAY => {
+                if sid != 0 {
+                    self.v(format!("{} sent {} on stream {}", me, tname, sid));
+                }
+                return;
+            }
+            ty::WINDOW_UPDATE if sid == 0 => return,
+            ty::DATA | ty::HEADERS | ty::PRIORITY | ty::RST_STREAM | ty::PUSH_PROMISE | ty::CONTINUATION => {
+                if sid == 0 {
+                    self.v(format!("{} sent {} on stream 0", me, tname));
+                    return;
+                }
+            }
+            _ => {}
+        }
+        if f.raw.ty > 9 {
+            return;
+        }
+        if f.raw.ty == ty::PRIORITY {
+            return; // allowed in every state
+        }
+        if f.raw.ty == ty::CONTINUATION {
+            // part of the header block its HEADERS / PUSH_PROMISE started (which may already carry END_STREAM); that it
+            // follows that frame immediately and on the same stream is checked by the monitor (header block contiguity)
+            if let Some(b) = &f.block {
+                if self.x == Side::Server {
+                    if let Ok(fs) = &b.fields {
+                        let status: Option<u16> = fs.iter().find(|(n, _)| n == b":status").and_then(|(_, v)| std::str::from_utf8(v).ok()?.parse().ok());
+                        if let Some(s) = status {
+                            if !(100..200).contains(&s) {
+                                self.final_head_sent.insert(b.sid, true);
+                            }
+                        }
+                    }
+                }
+            }
+            return;
+        }
+        let st = self.state.get(&sid).copied();
+        // frames after our own close
+        match st {
+            Some(SendState::Reset) => {
+                self.v(format!("{} sent {} on stream {} after its own RST_STREAM", me, tname, sid));
+                if f.raw.ty == ty::RST_STREAM {
+                    *self.rst_count.entry(sid).or_insert(0) += 1;
+                }
+                return;
+            }
+            Some(SendState::Ended) => {
+                if !matches!(f.raw.ty, ty::WINDOW_UPDATE | ty::RST_STREAM) {
+                    self.v(format!("{} sent {} on stream {} after its own END_STREAM", me, tname, sid));
+                    return;
+                }
+            }
+            _ => {}
+        }
+        match parsed {
+            Parsed::Headers { eos, .. } => {
+                // CONTINUATION frames belong to the block; state changes are applied at the first frame
+                let status: Option<u16> = f.block.as_ref().and_then(|b| b.fields.as_ref().ok()).and_then(|fs| fs.iter().find(|(n, _)| n == b":status").and_then(|(_, v)| std::str::from_utf8(v).ok()?.parse().ok()));
+                match st {
+                    None => {
+                        if self.own_parity(sid) {
+                            if self.x == Side::Server {
+                                self.v(format!("server sent HEADERS on stream {} that it never promised", sid));
+                            } else {
+                                if sid <= self.max_own_id {
+                                    self.v(format!("client opened stream {} after stream {} (identifiers must increase)", sid, self.max_own_id));
+                                }
+                                self.max_own_id = self.max_own_id.max(sid);
+                                self.streams_opened += 1;
+                            }
+                        } else if self.x == Side::Client {
+                            self.v(format!("client sent HEADERS on server-initiated stream {}", sid));
+                        } else if !self.peer_opened.contains(&sid) {
+                            self.v(format!("server sent HEADERS on idle stream {} (no request received on it)", sid));
+                        }
+                        self.state.insert(sid, if eos { SendState::Ended } else { SendState::Open });
+                        // interim responses keep the "final head" pending; END_HEADERS-less first frames have no block yet
+                        let interim = self.x == Side::Server && status.map(|s| (100..200).contains(&s)).unwrap_or(false);
+                        self.final_head_sent.insert(sid, !interim);
+                        if interim && eos {
+                            self.v(format!("server sent END_STREAM on an interim response on stream {}", sid));
+                        }
+                    }
+                    Some(SendState::Reserved) => {
+                        self.state.insert(sid, if eos { SendState::Ended } else { SendState::Open });
+                        self.final_head_sent.insert(sid, true);
+                    }
+                    Some(SendState::Open) => {
+                        let final_sent = self.final_head_sent.get(&sid).copied().unwrap_or(true);
+                        if final_sent {
+                            // trailers
+                            if !eos {
+                                self.v(format!("{} sent a second HEADERS without END_STREAM on stream {} (trailers must end the stream)", me, sid));
+                            }
+                        } else {
+                            let interim = status.map(|s| (100..200).contains(&s)).unwrap_or(false);
+                            if !interim {
+                                self.final_head_sent.insert(sid, true);
+                            }
+                        }
+                        if eos {
+                            self.state.insert(sid, SendState::Ended);
+                        }
+                    }
+                    _ => {}
+                }
+            }
+            Parsed::Continuation { .. } => {
+                // contiguity is checked by the monitor; the status of a block split over CONTINUATION is known only at its end
+                if let Some(b) = &f.block {
+                    if self.x == Side::Server {
+                        if let Ok(fs) = &b.fields {
+                            let status: Option<u16> = fs.iter().find(|(n, _)| n == b":status").and_then(|(_, v)| std::str::from_utf8(v).ok()?.parse().ok());
+                            if let Some(s) = status {
+                                if !(100..200).contains(&s) {
+                                    self.final_head_sent.insert(b.sid, true);
+                                }
+                            }
+                        }
+                    }
+                }
+            }
+            Parsed::Data { eos, .. } => match st {
+                Some(SendState::Open) => {
+                    if self.final_head_sent.get(&sid) == Some(&false) {
+                        self.v(format!("server sent DATA on stream {} before the final response head", sid));
+                    }
+                    if eos {
+                        self.state.insert(sid, SendState::Ended);
+                    }
+                }
+                None => self.v(format!("{} sent DATA on idle stream {}", me, sid)),
+                Some(SendState::Reserved) => self.v(format!("{} sent DATA on reserved stream {} before HEADERS", me, sid)),
+                _ => {}
+            },
+            Parsed::RstStream { .. } => {
+                *self.rst_count.entry(sid).or_insert(0) += 1;
+                let known = st.is_some() || self.peer_opened.contains(&sid) || self.peer_promised.contains(&sid);
+                if !known {
+                    self.v(format!("{} sent RST_STREAM on idle stream {}", me, sid));
+                }
+                self.state.insert(sid, SendState::Reset);
+            }
+            Parsed::WindowUpdate { .. } => {
+                let known = st.is_some() || self.peer_opened.contains(&sid) || self.peer_promised.contains(&sid);
+                if !known {
+                    self.v(format!("{} sent WINDOW_UPDATE on idle stream {}", me, sid));
+                }
+            }
+            Parsed::PushPromise { promised, .. } => {
+                if self.x == Side::Client {
+                    self.v("client sent PUSH_PROMISE".to_string());
+                    return;
+                }
+                if self.own_parity(sid) || !self.peer_opened.contains(&sid) {
+                    self.v(format!("server sent PUSH_PROMISE on stream {} which is not an open client-initiated stream", sid));
+                }
+                if promised % 2 != 0 || promised == 0 {
+                    self.v(format!("server promised stream {} (must be even)", promised));
+                }
+                if promised <= self.max_own_id {
+                    self.v(format!("server promised stream {} after {} (identifiers must increase)", promised, self.max_own_id));
+                }
+                self.max_own_id = self.max_own_id.max(promised);
+                self.streams_opened += 1;
+                self.state.insert(promised, SendState::Reserved);
+            }
+            _ => {}
+        }
+    }
+}
